@@ -1,0 +1,20 @@
+//go:build verif
+
+// Contracts read by the verification tooling in /verif (build tag "verif"; comment-only).
+package splat
+
+// C14: the .splat format is a bare stream of 32-byte records.  Read keeps exactly the records that were
+// wholly present: every splat it returns was assembled from 32 bytes that existed, and a clean end (err == nil)
+// means no trailing partial record was dropped silently.  consumed(in) is the ghost count of bytes taken from
+// the reader.  "exit" clauses are postconditions over the function's locals at every return.
+
+//@ func Read
+//@   props C14
+//@   returns mesh, err
+//@   exit whole_records_only: len(positionData) * 32 <= consumed(in) - old(consumed(in))
+//@   exit one_entry_per_record: len(scaleData) == len(positionData) && len(colorData) == len(positionData) && len(opacityData) == len(positionData) && len(rotationData) == len(positionData)
+//@   exit clean_end_means_no_partial_record: err == nil ==> consumed(in) - old(consumed(in)) == len(positionData) * 32
+//@   loop 1:
+//@     invariant len(splatBuffer) == 32 && fresh(splatBuffer)
+//@     invariant len(positionData) * 32 == consumed(in) - old(consumed(in))
+//@     invariant len(scaleData) == len(positionData) && len(colorData) == len(positionData) && len(opacityData) == len(positionData) && len(rotationData) == len(positionData)
